@@ -713,6 +713,15 @@ pub struct Not<I> {
     filter: FilterAny,
 }
 
+#[cfg(olson_sean_k_wax_verif)]
+impl<I> Not<I> {
+    /// Gets the text of the exhaustive and nonexhaustive programs of the negation (verification
+    /// hook).
+    pub fn verif_patterns(&self) -> (Option<String>, Option<String>) {
+        self.filter.verif_patterns()
+    }
+}
+
 impl<I> CancelWalk for Not<I>
 where
     I: CancelWalk,
